@@ -88,36 +88,40 @@ fn mk_opts(hashes: bool, human: bool, unknown: bool, split: bool) -> GitAiBlameO
     GitAiBlameOptions { line_ranges: vec![], newest_commit: None, oldest_commit: None, oldest_date: None, porcelain: false, line_porcelain: false, incremental: false, show_name: false, show_number: false, show_email: false, suppress_author: false, show_stats: false, long_rev: false, raw_timestamp: false, abbrev: None, blank_boundary: false, show_root: false, detect_moves: false, detect_copies: 0, move_threshold: None, ignore_revs: vec![], ignore_revs_file: None, no_ignore_revs_file: false, color_lines: false, color_by_age: false, progress: false, date_format: None, contents_file: None, reverse: None, first_parent: false, encoding: None, contents_data: None, use_prompt_hashes_as_names: hashes, return_human_authors_as_human: human, no_output: false, ignore_whitespace: false, json: false, mark_unknown: unknown, show_prompt: false, split_hunks_by_ai_author: split }
 }
 const SHAS: &[&str] = &["c1c1c1c1", "c2c2c2c2", "c3c3c3c3"];
-fn mk_hunk(r: (u32, u32), o: u32, c: usize) -> BlameHunk {
-    BlameHunk { range: r, orig_range: (o, o + (r.1 - r.0)), commit_sha: SHAS[c].into(), abbrev_sha: format!("ab{}", c + 1), original_author: format!("author{}", c + 1), author_email: format!("a{}@x", c + 1), author_time: c as i64, author_tz: "+0000".into(), ai_human_author: None, committer: "comm".into(), committer_email: "c@x".into(), committer_time: 0, committer_tz: "+0000".into(), is_boundary: c == 2 }
+/// the path git reports for a hunk (the `filename` line of its blame group): "" = none, else the path the file had in the originating commit
+const HPATHS: &[&str] = &["", "f.rs", "old.rs"];
+fn mk_hunk(r: (u32, u32), o: u32, c: usize, p: usize) -> BlameHunk {
+    BlameHunk { range: r, orig_range: (o, o + (r.1 - r.0)), commit_sha: SHAS[c].into(), abbrev_sha: format!("ab{}", c + 1), original_author: format!("author{}", c + 1), author_email: format!("a{}@x", c + 1), author_time: c as i64, author_tz: "+0000".into(), ai_human_author: None, committer: "comm".into(), committer_email: "c@x".into(), committer_time: 0, committer_tz: "+0000".into(), is_boundary: c == 2, filename: HPATHS[p].to_string() }
 }
-/// scenario: raw hunks `start-end@orig#commit` (consecutive from line 1), notes per commit, the file asked for, -L ranges, option bits
-struct Sc { hunks: Vec<(u32, u32, u32, usize)>, notes: Vec<Option<Note>>, file: String, ranges: Vec<(u32, u32)>, bits: u32 }
+/// scenario: raw hunks `start-end@orig#commit/path` (consecutive from line 1; path = index into HPATHS), notes per commit, the file asked for, -L ranges, option bits
+struct Sc { hunks: Vec<(u32, u32, u32, usize, usize)>, notes: Vec<Option<Note>>, file: String, ranges: Vec<(u32, u32)>, bits: u32 }
 fn show_sc(s: &Sc) -> String {
-    format!("{}~{}~{}~{}~{}", s.hunks.iter().map(|(a, b, o, c)| format!("{}-{}@{}#{}", a, b, o, c)).collect::<Vec<_>>().join(","),
+    format!("{}~{}~{}~{}~{}", s.hunks.iter().map(|(a, b, o, c, p)| format!("{}-{}@{}#{}/{}", a, b, o, c, p)).collect::<Vec<_>>().join(","),
         s.notes.iter().map(|n| match n { Some(n) => format!("N{}", show_note(n)), None => "-".to_string() }).collect::<Vec<_>>().join("!"), s.file,
         s.ranges.iter().map(|(a, b)| format!("{}-{}", a, b)).collect::<Vec<_>>().join(","), s.bits)
 }
 fn parse_sc(s: &str) -> Sc {
     let p: Vec<&str> = s.split('~').collect();
-    Sc { hunks: p[0].split(',').filter(|x| !x.is_empty()).map(|h| { let (r, rest) = h.split_once('@').unwrap(); let (a, b) = r.split_once('-').unwrap(); let (o, c) = rest.split_once('#').unwrap(); (a.parse().unwrap(), b.parse().unwrap(), o.parse().unwrap(), c.parse().unwrap()) }).collect(),
+    Sc { hunks: p[0].split(',').filter(|x| !x.is_empty()).map(|h| { let (r, rest) = h.split_once('@').unwrap(); let (a, b) = r.split_once('-').unwrap(); let (o, c) = rest.split_once('#').unwrap(); let (c, p) = c.split_once('/').unwrap_or((c, "0")); (a.parse().unwrap(), b.parse().unwrap(), o.parse().unwrap(), c.parse().unwrap(), p.parse().unwrap()) }).collect(),
          notes: p[1].split('!').map(|n| if n == "-" { None } else { Some(parse_note(&n[1..])) }).collect(), file: p[2].to_string(),
          ranges: p[3].split(',').filter(|x| !x.is_empty()).map(|r| { let (a, b) = r.split_once('-').unwrap(); (a.parse().unwrap(), b.parse().unwrap()) }).collect(), bits: p[4].parse().unwrap() }
 }
 /// the oracle's answer for line l: (commit index, expected name, session if AI)
 fn o_line(s: &Sc, o: &GitAiBlameOptions, l: u32) -> Option<(usize, String, Option<String>)> {
-    let (a, _b, orig, c) = *s.hunks.iter().find(|(a, b, _, _)| *a <= l && l <= *b)?;
+    let (a, _b, orig, c, p) = *s.hunks.iter().find(|(a, b, _, _, _)| *a <= l && l <= *b)?;
+    // the note is searched under the path the file had in the ORIGINATING commit; the command-line path only when git reported none
+    let note_path: &str = if HPATHS[p].is_empty() { &s.file } else { HPATHS[p] };
     let git_author = format!("author{}", c + 1);
     match &s.notes[c] {
         None => Some((c, if o.mark_unknown { "Unknown".into() } else if o.return_human_authors_as_human { "human".into() } else { git_author }, None)),
-        Some(n) => match o_session(n, &s.file, orig + (l - a)) {
+        Some(n) => match o_session(n, note_path, orig + (l - a)) {
             Some(h) => Some((c, if o.use_prompt_hashes_as_names { h.clone() } else { tool_of(&h).to_string() }, Some(h))),
             None => Some((c, if o.return_human_authors_as_human { "human".into() } else { git_author }, None)),
         },
     }
 }
-fn flatten(hs: &[BlameHunk]) -> Vec<(u32, u32, String, String, bool)> {
-    let mut v = vec![]; for h in hs { for i in 0..=(h.range.1 - h.range.0) { v.push((h.range.0 + i, h.orig_range.0 + i, h.commit_sha.clone(), h.original_author.clone(), h.is_boundary)); } } v
+fn flatten(hs: &[BlameHunk]) -> Vec<(u32, u32, String, String, bool, String)> {
+    let mut v = vec![]; for h in hs { for i in 0..=(h.range.1 - h.range.0) { v.push((h.range.0 + i, h.orig_range.0 + i, h.commit_sha.clone(), h.original_author.clone(), h.is_boundary, h.filename.clone())); } } v
 }
 fn chk(c: &mut Ctx, s: &Sc) {
     c.evaluated += 1;
@@ -128,7 +132,7 @@ fn chk(c: &mut Ctx, s: &Sc) {
     let ranges: Vec<(u32, u32)> = if s.ranges.is_empty() { vec![(1, total)] } else { s.ranges.clone() };
     let wanted: Vec<u32> = (1..=total).filter(|l| ranges.iter().any(|(a, b)| a <= l && l <= b)).collect();
     NOTES.with(|n| { let mut n = n.borrow_mut(); n.clear(); for (i, x) in s.notes.iter().enumerate() { if let Some(x) = x { n.insert(SHAS[i].to_string(), x.clone()); } } });
-    RAW.with(|r| *r.borrow_mut() = s.hunks.iter().map(|(a, b, og, ci)| mk_hunk((*a, *b), *og, *ci)).collect());
+    RAW.with(|r| *r.borrow_mut() = s.hunks.iter().map(|(a, b, og, ci, p)| mk_hunk((*a, *b), *og, *ci, *p)).collect());
     let repo = Repository { _opaque: () };
     // ---- populate_ai_human_authors: line by line the result is the input
     let raw = clip(&RAW.with(|r| r.borrow().clone()), &ranges);
@@ -138,6 +142,14 @@ fn chk(c: &mut Ctx, s: &Sc) {
         Ok(Ok(h)) => h,
     };
     if hunks.iter().any(|h| h.range.0 > h.range.1) { c.fail("Repository::populate_ai_human_authors", "ensures#1", input.clone(), format!("{:?}", hunks.iter().map(|h| h.range).collect::<Vec<_>>()), "forward ranges".into()); return; }
+    // the label populate adds (not part of C09's wording, but it is looked up in the same note under the same path): the human author
+    // of the session of the hunk's lines - with splitting every line of a result hunk has the hunk's label, without it the first labelled line decides
+    let human_of = |l: u32| o_line(s, &o, l).and_then(|t| t.2).map(|h| if h == "s1" { "ann".to_string() } else { "bob".to_string() });
+    for h in &hunks {
+        let labels: Vec<Option<String>> = (h.range.0..=h.range.1).map(|l| human_of(l)).collect();
+        let ok = if o.split_hunks_by_ai_author { labels.iter().all(|x| *x == h.ai_human_author) } else { h.ai_human_author == labels.iter().flatten().next().cloned() };
+        if !ok { c.fail("Repository::populate_ai_human_authors", "labels", input.clone(), format!("hunk {:?} labelled {:?}", h.range, h.ai_human_author), format!("per line {:?}", labels)); break; }
+    }
     if flatten(&hunks) != flatten(&raw) { c.fail("Repository::populate_ai_human_authors", "ensures#2", input.clone(), format!("{:?}", flatten(&hunks)), format!("{:?}", flatten(&raw))); }
     // ---- overlay_ai_authorship: every requested line (no other) shows the oracle's name
     let (la, prm) = match guarded(|| overlay_ai_authorship(&repo, &hunks, &s.file, &o)) {
@@ -208,24 +220,52 @@ fn chk(c: &mut Ctx, s: &Sc) {
         if named != want { c.fail(fname, "ensures#commit", input.clone(), format!("{:?}", named), format!("{:?}", want)); }
     }
 }
-/// git's reading of `-L <arg>` for the forms that do not need the file (documented in git-blame(1)): `a,b`; `a,+n` = n lines from a
-fn o_range(s: &str) -> Option<Option<(u32, u32)>> {
+/// git's reading of `-L <arg>` (git-blame(1)): `a,b`; `a,+n` = n lines starting at a (an empty range is refused); `a` alone and `a,` = from a to
+/// the end of the file (None as end).  Forms this parser refuses although git accepts them (`a,-n`, `,b`, regexes) stay refusals.
+fn o_range(s: &str) -> Option<(u32, Option<u32>)> {
+    // an end of exactly u32::MAX (explicit or as a+n-1) coincides with the open-end marker: read as `to the end of the file` - which is
+    // also what git makes of any end beyond the last line (it clamps)
+    o_range_raw(s).map(|(a, e)| (a, if e == Some(u32::MAX) { None } else { e }))
+}
+fn o_range_raw(s: &str) -> Option<(u32, Option<u32>)> {
     let num = |x: &str| if !x.is_empty() && x.len() <= 12 && x.bytes().all(|b| b.is_ascii_digit()) { x.parse::<u32>().ok() } else { None };
+    let start = |x: &str| num(x.strip_prefix('+').unwrap_or(x));     // git reads a leading '+' on the START as part of the number (strtol)
     match s.split_once(',') {
-        // git reads a leading '+' on the START as part of the number (strtol): `+2,3` is 2..3
-        Some((a, b)) => match (num(a.strip_prefix('+').unwrap_or(a)), num(b)) {
-            (Some(a), Some(b)) => Some(Some((a, b))),
-            _ => if num(a.strip_prefix('+').unwrap_or(a)).is_some() && b.starts_with('+') && num(&b[1..]).is_some() { None /* finding 2: git reads a,+n as n lines from a */ } else { Some(None) },
-        },
-        None => match num(s) { Some(_) => None /* finding 3: git reads a lone a as a..end of file */, None => if s.starts_with('+') && num(&s[1..]).is_some() { None } else { Some(None) } },
+        Some((a, b)) => {
+            let a = start(a)?;
+            if b.is_empty() { return Some((a, None)); }
+            if let Some(n) = b.strip_prefix('+') { let n = num(n)?; if n == 0 { return None; } return a.checked_add(n - 1).map(|e| (a, Some(e))); }
+            num(b).map(|b| (a, Some(b)))
+        }
+        None => start(s).map(|a| (a, None)),
     }
 }
-fn chk_range(c: &mut Ctx, s: &str, notes: &mut u64) {
+fn chk_range(c: &mut Ctx, s: &str, total: u32) {
     c.evaluated += 1;
+    let input = format!("{} total {}", s, total);
+    let want = o_range(s);
     match guarded(|| parse_line_range(s)) {
-        Err(p) => c.fail("parse_line_range", "safety", s.to_string(), p, "no panic".into()),
-        Ok(r) => match o_range(s) { Some(w) => if r != w { c.fail("parse_line_range", "ensures#0", s.to_string(), format!("{:?}", r), format!("{:?}", w)); }, None => { *notes += 1; } },
+        Err(p) => c.fail("parse_line_range", "safety", input, p, "no panic".into()),
+        Ok(r) => {
+            // the marker of an open end is the function's business; what counts is what git is finally asked for
+            let mut o = mk_opts(false, false, false, true);
+            if let Some(r) = r { o.line_ranges.push(r); }
+            match (r, want) {
+                (None, None) => {}
+                (Some(_), Some((a, e))) => match guarded(|| Repository::region_pb_ranges(&o, total)) {
+                    Err(p) => c.fail("region_pb_ranges", "safety", input, p, "no panic".into()),
+                    Ok(v) => { let w = vec![(a, e.unwrap_or(total))]; if v != w { c.fail(if e.is_none() || r.unwrap().1 == u32::MAX { "region_pb_ranges" } else { "parse_line_range" }, "ensures#0", input, format!("{:?} -> asked {:?}", r, v), format!("asked {:?}", w)); } }
+                },
+                _ => c.fail("parse_line_range", "ensures#0", input, format!("{:?}", r), format!("{:?}", want)),
+            }
+        }
     }
+}
+/// no -L at all: the whole file
+fn chk_no_range(c: &mut Ctx, total: u32) {
+    c.evaluated += 1;
+    let o = mk_opts(false, false, false, true);
+    match guarded(|| Repository::region_pb_ranges(&o, total)) { Err(p) => c.fail("region_pb_ranges", "safety", format!("total {}", total), p, "no panic".into()), Ok(v) => if v != vec![(1, total)] { c.fail("region_pb_ranges", "ensures#0", format!("total {}", total), format!("{:?}", v), format!("[(1, {})]", total)); } }
 }
 fn chk_abbrev(c: &mut Ctx, abbrev: Option<u32>, root: bool, boundary: bool, sha: &str, len: usize) {
     c.evaluated += 1;
@@ -246,7 +286,7 @@ fn gen_note(g: &mut Rng, files: &[&str]) -> Note {
 }
 fn gen_sc(g: &mut Rng) -> Sc {
     let nh = g.below(5) as usize; let mut hunks = vec![]; let mut l = 1u32;
-    for _ in 0..nh { let n = 1 + g.below(4) as u32; hunks.push((l, l + n - 1, 1 + g.below(8) as u32, g.below(3) as usize)); l += n; }
+    for _ in 0..nh { let n = 1 + g.below(4) as u32; hunks.push((l, l + n - 1, 1 + g.below(8) as u32, g.below(3) as usize, g.below(3) as usize)); l += n; }
     let notes = (0..3).map(|_| if g.below(4) == 0 { None } else { Some(gen_note(g, &["f.rs", "old.rs"])) }).collect();
     let total = l - 1;
     let ranges = if total == 0 || g.below(2) == 0 { vec![] } else { let a = 1 + g.below(total as u64) as u32; let b = a + g.below((total - a + 1) as u64) as u32; vec![(a, b)] };
@@ -259,11 +299,10 @@ fn main() {
     let want = |f: &str| a[2] == "*" || a[2] == f || f.ends_with(a[2].as_str());
     if a[1] == "search" {
         let mut g = Rng(a[3].parse::<u64>().unwrap_or(0).wrapping_mul(0x9E3779B97F4A7C15) ^ 0x6a09e667f3bcc909);
-        if want("parse_line_range") {
-            let mut notes = 0u64;
-            for s in ["", ",", "1", "7", "0", "1,1", "2,5", "5,2", "10,20", "3,", ",4", "a", "1,b", "x,2", "1,2,3", " 1,2", "1, 2", "1,-2", "-1,2", "4294967295,4294967295", "4294967296,1", "1,4294967296", "2,+3", "+2,3", "2,+0", "é,1", "1,é", "١,٢", "00012,0013"] { chk_range(&mut c, s, &mut notes); }
-            for _ in 0..3000 { let n = g.below(7) as usize; let s: String = (0..n).map(|_| ['0', '1', '9', ',', '+', '-', ' ', 'x', '5'][g.below(9) as usize]).collect(); chk_range(&mut c, &s, &mut notes); }
-            std::println!("NOTE parse_line_range: {} inputs of the forms `a` / `a,+n` not compared (REPORT findings 2, 3)", notes);
+        if want("parse_line_range") || want("region_pb_ranges") {
+            for s in ["", ",", "1", "7", "0", "1,1", "2,5", "5,2", "10,20", "3,", ",4", "a", "1,b", "x,2", "1,2,3", " 1,2", "1, 2", "1,-2", "-1,2", "4294967295,4294967295", "4294967296,1", "1,4294967296", "2,+3", "+2,3", "2,+0", "é,1", "1,é", "١,٢", "00012,0013", "5", "5,", "+5", "3,+1", "3,+4294967293", "3,+4294967294", "2,++3", "2,+-3", "2,+ 3", "4294967295", "4294967295,+1", "4294967295,+2"] { for total in [0u32, 7, 4000000000] { chk_range(&mut c, s, total); } }
+            for total in [0u32, 1, 7] { chk_no_range(&mut c, total); }
+            for _ in 0..3000 { let n = g.below(7) as usize; let s: String = (0..n).map(|_| ['0', '1', '9', ',', '+', '-', ' ', 'x', '5'][g.below(9) as usize]).collect(); chk_range(&mut c, &s, 1 + g.below(50) as u32); }
         }
         if want("blame_requested_abbrev_len") || want("fallback_blame_abbrev_sha") {
             for ab in [None, Some(0), Some(1), Some(7), Some(38), Some(39), Some(40), Some(41), Some(u32::MAX)] { for root in [false, true] { for b in [false, true] { for len in [0usize, 1, 7, 8, 40, 41] { chk_abbrev(&mut c, ab, root, b, "0123456789abcdef0123456789abcdef01234567", len); chk_abbrev(&mut c, ab, root, b, "abc", len); } } } }
@@ -273,17 +312,18 @@ fn main() {
             for bits in [0u32, 1, 2, 4, 1 | 8, 1 | 16, 32, 1 | 64] { for orig in [1u32, 3] { for (ra, rb) in [(1u32, 1u32), (2, 3), (3, 5), (1, 6)] { for sess in ["s1", "sx"] { for file in ["f.rs", "old.rs"] {
                 let note: Note = vec![(file.to_string(), vec![(sess.to_string(), vec![(ra, rb)]), ("s2".to_string(), vec![(5, 5)])])];
                 for ranges in [vec![], vec![(2u32, 4u32)], vec![(1, 1), (4, 5)]] {
-                    chk(&mut c, &Sc { hunks: vec![(1, 3, orig, 0), (4, 5, 2, 1)], notes: vec![Some(note.clone()), None, None], file: "f.rs".into(), ranges: ranges.clone(), bits });
-                    chk(&mut c, &Sc { hunks: vec![(1, 2, 1, 1), (3, 5, orig, 0)], notes: vec![Some(note.clone()), Some(note.clone()), None], file: "f.rs".into(), ranges, bits });
+                    for hp in 0..HPATHS.len() {
+                        chk(&mut c, &Sc { hunks: vec![(1, 3, orig, 0, hp), (4, 5, 2, 1, 0)], notes: vec![Some(note.clone()), None, None], file: "f.rs".into(), ranges: ranges.clone(), bits });
+                        chk(&mut c, &Sc { hunks: vec![(1, 2, 1, 1, (hp + 1) % 3), (3, 5, orig, 0, hp)], notes: vec![Some(note.clone()), Some(note.clone()), None], file: "f.rs".into(), ranges: ranges.clone(), bits });
+                    }
                 }
             } } } } }
             chk(&mut c, &Sc { hunks: vec![], notes: vec![None, None, None], file: "f.rs".into(), ranges: vec![], bits: 1 });
             for _ in 0..4000 { let s = gen_sc(&mut g); chk(&mut c, &s); }
         }
     } else {
-        let mut notes = 0u64;
         match a[2].as_str() {
-            "parse_line_range" => chk_range(&mut c, &a[3], &mut notes),
+            "parse_line_range" | "region_pb_ranges" => match a[3].rsplit_once(" total ") { Some((s, t)) => chk_range(&mut c, s, t.parse().unwrap()), None => chk_range(&mut c, &a[3], 7) },
             f if f.contains("abbrev") => {}
             _ => chk(&mut c, &parse_sc(&a[3])),
         }
